@@ -18,10 +18,15 @@
 (*                  T.ipc / T.epc = Seq(<<(n-1)-gram, count>>),            *)
 (*                  T.cpc = Seq(<<n-gram, count>>), T.lnc = counts by      *)
 (*                  length (index = length)                                *)
+(*                  T.cptot = Seq(<<(n-1)-gram, cp_count>>) (the trainer's *)
+(*                  per-context totals); the levels in T.m must be the     *)
+(*                  smoothed counts (Smoothing.tla)                        *)
+(*  kind "smooth"   T.rows[i] = <<count, total, adjust, level>>: the real  *)
+(*                  _calc_level on MC_Smoothing's space                    *)
 (*  kind "resume"   T.full = uninterrupted sequence, T.j = cut,            *)
 (*                  T.rest = what the resumed generator emitted            *)
 (***************************************************************************)
-EXTENDS Omen, TLCExt, Json, IOUtils, SequencesExt
+EXTENDS Omen, Smoothing, TLCExt, Json, IOUtils, SequencesExt
 
 Traces == TLCEval(ndJsonDeserialize(IOEnv.TRACE_FILE))
 NT == Len(Traces)
@@ -53,14 +58,29 @@ ExpectedAlphabet ==
        fp == [c \in chars |-> CHOOSE j \in DOMAIN st : st[j] = c /\ \A i \in 1..(j - 1) : st[i] # c]
        srt == SetToSortSeq(chars, LAMBDA a, b : tl[a] > tl[b] \/ (tl[a] = tl[b] /\ fp[a] < fp[b]))
    IN SubSeq(srt, 1, IF T.asz < Len(srt) THEN T.asz ELSE Len(srt))
-NClauses == CASE T.kind = "level" -> 4 [] T.kind = "tables" -> 5 [] T.kind = "agree" -> 4 [] T.kind = "keyspace" -> 3
-              [] T.kind = "resume" -> 1 [] OTHER -> 1
+NClauses == CASE T.kind = "level" -> 4 [] T.kind = "tables" -> 6 [] T.kind = "agree" -> 4 [] T.kind = "keyspace" -> 3
+              [] T.kind = "resume" -> 1 [] T.kind = "smooth" -> 1 [] OTHER -> 1
+RECURSIVE SumCounts(_, _)
+SumCounts(tab, i) == IF i > Len(tab) THEN 0 ELSE tab[i][2] + SumCounts(tab, i + 1)
+RECURSIVE SumSeq(_, _)
+SumSeq(sq, i) == IF i > Len(sq) THEN 0 ELSE sq[i] + SumSeq(sq, i + 1)
+(* the levels the trainer keeps (T.m) are the smoothed counts: initial n-grams against their sum (adjust 250), every         *)
+(* transition against its context's total (adjust 2), lengths against the number of passwords (adjust 1; level 10 when none) *)
+SmoothedLevels ==
+   LET M == Mod
+       ipTotal == SumCounts(T.ipc, 1)
+       lnTotal == SumSeq(T.lnc, 1)
+       cpTot == FnOf(T.cptot)
+   IN /\ \A r \in DOMAIN T.ipc : M.ip[T.ipc[r][1]] \in Admissible(T.ipc[r][2], ipTotal, 250)
+      /\ \A r \in DOMAIN T.cpc : LET c == T.cpc[r][1] IN M.cp[c] \in Admissible(T.cpc[r][2], cpTot[SubSeq(c, 1, Len(c) - 1)], 2)
+      /\ \A L \in DOMAIN T.lnc : IF lnTotal = 0 THEN M.ln[L] = MaxLevel ELSE M.ln[L] \in Admissible(T.lnc[L], lnTotal, 1)
 ClauseName(k) ==
   CASE T.kind = "level"    -> <<"C10_reports_exhaustion", "C10_each_string_once", "C10_only_strings_of_the_level", "C10_none_missing">>[k]
     [] T.kind = "agree"    -> <<"C11_trainer_level", "C11_scorer_level", "C11_guesser_level", "C11_passwords_per_level">>[k]
     [] T.kind = "keyspace" -> <<"C18_keyspace_is_level_size", "C18_generator_emits_that_many", "C18_saved_probability">>[k]
     [] T.kind = "tables"   -> <<"C11_initial_ngram_counts_are_tallies", "C11_transition_counts_are_tallies", "C11_end_ngram_counts_are_tallies", "C11_length_counts_are_tallies",
-                                  "I_alphabet_is_the_most_frequent_characters">>[k]
+                                  "I_alphabet_is_the_most_frequent_characters", "I_levels_are_the_smoothed_counts">>[k]
+    [] T.kind = "smooth"   -> <<"I_calc_level_is_the_smoothing_formula">>[k]
     [] T.kind = "resume"   -> <<"C15_resumes_at_next_guess">>[k]
     [] OTHER               -> <<"C10_generator_raised">>[k]
 ClauseHolds(k) ==
@@ -91,6 +111,8 @@ ClauseHolds(k) ==
     [] T.kind = "tables" /\ k = 3 -> \A r \in DOMAIN T.epc : T.epc[r][2] = EpTally(T.epc[r][1])
     [] T.kind = "tables" /\ k = 4 -> \A L \in DOMAIN T.lnc : T.lnc[L] = LnTally(L)
     [] T.kind = "tables" /\ k = 5 -> T.alpha = ExpectedAlphabet
+    [] T.kind = "tables" /\ k = 6 -> SmoothedLevels
+    [] T.kind = "smooth" -> \A i \in DOMAIN T.rows : T.rows[i][4] \in Admissible(T.rows[i][1], T.rows[i][2], T.rows[i][3])
     [] T.kind = "resume" -> T.rest = SubSeq(T.full, T.j + 1, Len(T.full))
     [] OTHER -> FALSE
 
